@@ -82,3 +82,35 @@ pub mod nodes {
         v.xml_node_name()
     }
 }
+
+pub mod cm {
+    //! Wrappers around crate-private items of `crate::cm`.
+    pub fn shortest_unused_sequence(literal: &[u8], f: u8) -> usize {
+        crate::cm::verif_shortest_unused_sequence(literal, f)
+    }
+    pub fn longest_char_sequence(literal: &[u8], ch: u8) -> usize {
+        crate::cm::verif_longest_char_sequence(literal, ch)
+    }
+}
+
+thread_local! {
+    static LINE_LOG: std::cell::RefCell<Option<Vec<Vec<u8>>>> = std::cell::RefCell::new(None);
+}
+
+/// Start recording the lines handed to `process_line` on this thread.
+pub fn line_log_start() {
+    LINE_LOG.with(|l| *l.borrow_mut() = Some(Vec::new()));
+}
+
+/// Stop recording and return the lines handed to `process_line` since `line_log_start`.
+pub fn line_log_take() -> Vec<Vec<u8>> {
+    LINE_LOG.with(|l| l.borrow_mut().take().unwrap_or_default())
+}
+
+pub(crate) fn log_line(line: &[u8]) {
+    LINE_LOG.with(|l| {
+        if let Some(v) = l.borrow_mut().as_mut() {
+            v.push(line.to_vec());
+        }
+    });
+}
